@@ -13,18 +13,28 @@ CFG = {
                           "RpmVerif.C06.readback_file_entries_reparsed",
                           "RpmVerif.C06.dep_ctor_spec", "RpmVerif.C06.dep_ctor_defined", "RpmVerif.C06.builder_ctors_in_table",
                           "RpmVerif.C06.dep_ctor_flags_readback", "RpmVerif.C06.dep_ctor_table_standard",
+                          "RpmVerif.C06.file_option_defaults_standard", "RpmVerif.C06.file_option_setters_standard",
+                          "RpmVerif.C06.file_option_setters_shape", "RpmVerif.C06.setterBits_standard",
+                          "RpmVerif.C06.with_file_inherit_mode", "RpmVerif.C06.with_file_inherit_regular", "RpmVerif.C06.explicit_mode_wins",
+                          "RpmVerif.C06.explicit_mode_i32", "RpmVerif.C06.mode_header_eq_cpio", "RpmVerif.C06.mode_header_eq_cpio_stored",
+                          "RpmVerif.C06.with_file_readback", "RpmVerif.C06.readback_flags_of_setters", "RpmVerif.C06.defaults_readback",
+                          "RpmVerif.C06.readback_verifyflags",
                           "RpmVerif.Pipeline.build_file_entries", "RpmVerif.Pipeline.build_file_entries_reparsed",
                           "RpmVerif.Pipeline.built_history_file_entries", "RpmVerif.Pipeline.built_package_sound"],
-    "trivial_branches": ["build-rejected", "ctor-names"],
+    "trivial_branches": ["build-rejected", "ctor-names", "wfile:fs-unsupported"],
     "rule": "seeded builder configurations through the real PackageBuilder (source files written to a scratch dir with chosen mode and mtime, "
             "clock pinned through the rpm_verif hook): any subset of optional fields; strings from {empty, ASCII, multi-line, tabs, multi-byte, quotes}; "
             "0..6 files at depth 0..4 incl. directly under '/', '/'- and './'-style and doubled-separator destinations, explicit modes (regular, dir, "
             "symlink, all 12 permission bits) and inherited modes, non-root owners, file flags, capabilities, verify flags, mtimes before/after the source "
-            "date; dependencies of all eight kinds; all nine scriptlets with/without flags and interpreters (incl. empty list); changelog; every "
-            "compression type and level. Plus the 14 public Dependency constructors (op dep): every constructor under every one of the eight builder methods, and every constructor over "
-            "names {empty, ASCII, parentheses, blank, multi-byte} × versions with the method rotating — constructed value and the value read back from the built, "
-            "written and re-parsed package, against the constructor table scraped from src/rpm/headers/types.rs (op depctors: the harness calls every constructor in it). "
-            "Observable: fnv of lead / signature header / main header bytes (predicted byte for byte by the model), "
+            "date; the mode() call before / after the other setters and through From<u16>, mode(i32) outside 16 bits (0o271664, 2^31−1, −1, −32769, −2^31, 65536+0o100644), "
+            "inherited set-uid / set-gid / sticky bits, sub-second mtimes, the is_* setters by name and in any order, compression(CompressionType) and no compression() call; "
+            "plus (this property only) sources whose mtime is outside 1970..2106, a directory / a missing path as source (the model predicts the Err), and the `wfile6` "
+            "cases of C17's `wfile` generator (one options chain + with_file on a regular file / symlink / FIFO / directory / missing path, every permission word, "
+            "16 mtimes, 49 chains) judged for read-back; dependencies of all eight kinds; all nine scriptlets with/without flags and interpreters (incl. empty list); changelog; every "
+            "compression type and level. Plus the 14 public Dependency constructors (op dep): every constructor under every one of the eight builder methods, "
+            "and every constructor over names {empty, ASCII, parentheses, blank, multi-byte} × versions with the method rotating — constructed value and the "
+            "value read back from the built, written and re-parsed package, against the constructor table scraped from src/rpm/headers/types.rs (op depctors: "
+            "the harness calls every constructor in it). Observable: fnv of lead / signature header / main header bytes (predicted byte for byte by the model), "
             "reparse equality, and the full accessor dump judged against the request by the spec. Non-trivial = build succeeded; distinct = distinct requests.",
     "exhaustive": False,
     "shards": {"quick": 4, "thorough": 16},
@@ -44,10 +54,17 @@ CFG = {
                   "LONGFILESIZES), flags, SHA-256 digest, capabilities and link target, and [] for a package without files; the same holds on the written "
                   "and re-parsed package (readback_file_entries_reparsed, Pipeline.build_file_entries_reparsed) and after any sign / clear / write + "
                   "re-parse history (Pipeline.built_history_file_entries); hypotheses: every file's directory is registered and every digest text is "
-                  "empty or 64 characters (both guaranteed by add_data). A dependency made by any public Dependency constructor (table regenerated from the "
-                  "source) reads back, under each of the eight kinds, with the constructor's wrapped name, the version and exactly the table's flags "
-                  "(dep_ctor_flags_readback; the constructors the builder calls itself are rows of that table: builder_ctors_in_table; the table's rows are rpm's RPMSENSE meanings of the constructor names: dep_ctor_table_standard). The model predicts the emitted "
-                  "lead, signature header and main header byte for byte on every generated configuration.",
+                  "empty or 64 characters (both guaranteed by add_data). The model predicts the emitted "
+                  "lead, signature header and main header byte for byte on every generated configuration. "
+                  "The builder FRONT-END is a Lean model too (Model/WithFile.lean; the driver's prediction runs through it): for the state ANY sequence of "
+                  "FileOptions::new(dest).<setters> + with_file(source, ..) calls leaves behind, the per-file arrays and get_file_paths() read back the stored entries, "
+                  "every entry stems from one of the calls and carries that source's size / mtime / digest and those options' fields, and every entry's directory is "
+                  "registered (with_file_readback); without a mode() call the stored mode word is the source's st_mode, low 16 bits — type and all 12 permission bits, for "
+                  "every st_mode word (with_file_inherit_mode; with_file_inherit_regular: 0o100000|p, read back as Regular{p}); the LAST mode(m) of a chain wins whatever "
+                  "the source and the other setters (explicit_mode_wins), for mode(i32) the word is the integer's low 16 bits and the FILEMODES word equals the cpio c_mode, "
+                  "for EVERY i32 incl. those From<i32> maps to Invalid (mode_header_eq_cpio); the FILEFLAGS word is the OR of rpm's attribute bits of the is_* setters called "
+                  "(readback_flags_of_setters + file_option_setters_standard: the insert(..) arguments scraped from types.rs are rpm's RPMFILE_* values), a bare "
+                  "FileOptions::new(dest) reads back root / root / no flags / every verify flag (defaults_readback + file_option_defaults_standard). A dependency made by any public Dependency constructor (table regenerated from the source) reads back, under each of the eight kinds, with the constructor's wrapped name, the version and exactly the table's flags (dep_ctor_flags_readback; builder_ctors_in_table; dep_ctor_table_standard: the rows are rpm's RPMSENSE meanings).",
     "level_note": "Trusted: Lean kernel; model fidelity as exercised (byte-exact header prediction per case); compressors / SHA-256 crates; "
                   "add_data's path handling is C17's model. get_file_entries' composition is a theorem (readback_file_entries) and is also exercised by the correspondence.",
 }
